@@ -645,6 +645,8 @@ class Interp:
             return ("cmp", op, a, b)
         checked = op.endswith("WithOverflow")
         base = op.replace("WithOverflow", "").replace("Unchecked", "")
+        if base in ("Add", "Mul", "BitAnd", "BitOr", "BitXor") and is_const(a) and not is_const(b):
+            a, b = b, a           # commutative: constants second, so that  c | x  and  x | c  are the same term
         if base in ("Add", "Sub", "Mul", "Div", "Rem", "BitAnd", "BitOr", "BitXor", "Shl", "Shr"):
             rng = ty_range(aty)
             ca, cb = const_val(a), const_val(b)
